@@ -13,7 +13,9 @@ RULE = ("K: fdtdx.place_objects on generated scenes (volume 5-8 cells per axis; 
         "arrays.inv_permittivities, inv_permeabilities (array or scalar), electric_conductivity, magnetic_conductivity "
         "(array or None) and their component counts. Compared with the Lean model's initArrays (counts exactly, values 1e-9) "
         "fed with the container's object order, boxes, voxel masks and materials; and with an independent numpy oracle that "
-        "takes, per cell, the covering object with the largest (placement_order, list index), the widest tier any material "
+        "takes, per cell, the covering object with the largest (placement_order, index in the list handed to place_objects), "
+        "every scene containing an overlapping equal-order pair of a round (multi-material class) object and a box in "
+        "either list order; the widest tier any material "
         "needs, and conductivity x uniform grid spacing. non-trivial = tier pattern x kinds x tie/below-volume flags.")
 
 _jax = None
@@ -137,6 +139,22 @@ def gen_scene(rng, idx, thorough=False):
         o["size"] = size
         o["lo"] = [rng.randint(0, V[a] - size[a]) for a in range(3)]
         objs.append(o)
+    # always: an overlapping pair of objects of DIFFERENT classes with EQUAL placement order, in either list order
+    # (list order breaks the tie: the later one wins the overlap whatever its class)
+    p0 = [rng.randint(0, V[a] - 4) for a in range(3)]
+    tie = rng.choice(orders)
+    round_kind = rng.choice(["sphere", "cyl"])
+    if round_kind == "sphere":
+        rnd = {"kind": "sphere", "order": tie, "mat": gen_material(rng, plan), "extra": [], "size": [4, 4, 4], "lo": p0}
+    else:
+        rnd = {"kind": "cyl", "order": tie, "axis": 1, "mat": gen_material(rng, plan), "extra": [], "size": [3, 3, 3], "lo": p0}
+    bx = {"kind": "box", "order": tie, "mat": gen_material(rng, plan), "size": [3, 3, 3], "lo": [v + 1 for v in p0]}
+    pair = [rnd, bx] if rng.chance(0.5) else [bx, rnd]
+    objs = objs[:3]
+    at = rng.randint(0, len(objs))
+    objs = objs[:at] + [pair[0]] + objs[at:]
+    at2 = rng.randint(at + 1, len(objs))
+    objs = objs[:at2] + [pair[1]] + objs[at2:]
     scene = {"volume": V, "vol_order": rng.choice([-1000] * 9 + [0]), "vol_mat": gen_material(rng, plan) if rng.chance(0.5) else {},
              "objects": objs, "device": None}
     if rng.chance(0.25):
@@ -150,7 +168,7 @@ def build_scene(sc):
     j = J()
     fdtdx, jnp = j["fdtdx"], j["jnp"]
     cfg = fdtdx.SimulationConfig(time=20e-15, grid=fdtdx.UniformGrid(spacing=H), dtype=jnp.float64, backend="cpu")
-    objs = [fdtdx.SimulationVolume(partial_grid_shape=tuple(sc["volume"]), material=to_material(sc["vol_mat"]),
+    objs = [fdtdx.SimulationVolume(name="vol", partial_grid_shape=tuple(sc["volume"]), material=to_material(sc["vol_mat"]),
                                    placement_order=int(sc["vol_order"]))]
     cons = []
     for i, o in enumerate(sc["objects"]):
@@ -197,7 +215,13 @@ def observe(sc):
            "sigE": None if arrays.electric_conductivity is None else np.asarray(arrays.electric_conductivity),
            "sigM": None if arrays.magnetic_conductivity is None else np.asarray(arrays.magnetic_conductivity)}
     painters = []
-    for o in oc.static_material_objects:
+    # "list order" is the order of the object list handed to place_objects (volume first, then the scene's objects);
+    # it is taken from the scene, NOT from ObjectContainer.static_material_objects, whose order is part of what is checked
+    by_name = {o.name: o for o in oc.object_list}
+    listed = ["vol"] + [f"o{i}" for i in range(len(sc["objects"]))]
+    got["container_order"] = [o.name for o in oc.object_list if o.name in set(listed)]
+    got["listed_order"] = listed
+    for o in (by_name[n] for n in listed):
         sl = tuple(slice(a, b) for a, b in o.grid_slice_tuple)
         box = np.zeros(V, dtype=bool)
         box[sl] = True
@@ -351,6 +375,7 @@ def check_scene(ctx, sc, sample=False):
     for i, o in enumerate(sc["objects"]):
         p = next(q for q in painters if q["name"] == f"o{i}")
         ctx.expect_equal("placement", sc, p["slice"], [[o["lo"][a], o["lo"][a] + o["size"][a]] for a in range(3)])
+    ctx.expect_equal("object-list-order", sc, got["container_order"], got["listed_order"])
     key = scene_key(sc, got, painters)
     overl = int(np.sum(np.sum([p["box"] & (p["mask"] | p["uniform"]) for p in painters], axis=0) > 2))
     ctx.case(sample={"scene": sc, "tiers": key[0]} if sample else None, nontrivial=key, op="paint",
@@ -385,6 +410,12 @@ FIXED = [
         {"kind": "box", "order": 1, "mat": {"eps": 2.0}, "size": [3, 3, 3], "lo": [1, 1, 1]},
         {"kind": "sphere", "order": 1, "mat": {"eps": 5.0}, "extra": [], "size": [4, 4, 4], "lo": [2, 2, 1]},
         {"kind": "box", "order": 0, "mat": {"eps": 9.0}, "size": [6, 6, 2], "lo": [0, 0, 2]}]},
+    # cross-class ties, round object listed BEFORE the overlapping box: the box (listed later) must win the overlap
+    {"volume": [6, 6, 6], "vol_order": -1000, "vol_mat": {}, "device": None, "objects": [
+        {"kind": "sphere", "order": 0, "mat": {"eps": 5.0}, "extra": [], "size": [4, 4, 4], "lo": [1, 1, 1]},
+        {"kind": "box", "order": 0, "mat": {"eps": 2.0}, "size": [3, 3, 3], "lo": [2, 2, 2]},
+        {"kind": "cyl", "order": 2, "axis": 2, "mat": {"eps": 7.0}, "extra": [], "size": [2, 2, 4], "lo": [0, 0, 1]},
+        {"kind": "box", "order": 2, "mat": {"eps": 3.0}, "size": [1, 1, 1], "lo": [1, 1, 2]}]},
     # everything wide: full permittivity tensor, diagonal permeability, conductivities
     {"volume": [6, 6, 6], "vol_order": -1000, "vol_mat": {"eps": 1.5}, "device": None, "objects": [
         {"kind": "box", "order": 0, "mat": {"eps": [2.0, 0.1, 0.0, 0.1, 3.0, 0.2, 0.0, 0.2, 4.0], "sigE": 3.0e4}, "size": [2, 4, 3], "lo": [0, 1, 2]},
